@@ -4,6 +4,7 @@ import (
 	"fmt"
 	"sort"
 	"strings"
+	"sync/atomic"
 	"time"
 
 	"github.com/buildbuildio/pebbles/planner"
@@ -187,10 +188,10 @@ func scenFED(s *sched.Sim, cfg Config, res *Result) {
 		}
 		s.Describe(map[string]any{"services": w.ServiceSDL, "gateway": gc.String(), "operations": d, "overlapping_clients": overlap})
 	}
-	doneCount := 0
+	var doneCount atomic.Int32
 	run := func(fo *fedOp) {
 		fo.resp = env.post(fo.client, []clientReq{{Query: fo.op.Text, Variables: fo.op.Vars, OperationName: fo.op.OpName}}, false)
-		doneCount++
+		doneCount.Add(1)
 	}
 	if overlap {
 		for _, fo := range ops {
@@ -204,9 +205,13 @@ func scenFED(s *sched.Sim, cfg Config, res *Result) {
 			}
 		})
 	}
-	end := s.Run(func() bool { return doneCount == len(ops) && len(s.Alive()) == 0 }, 60000, 10*time.Second)
+	stepBudget := 150000
+	if cfg.Thorough {
+		stepBudget = 1500000
+	}
+	end := s.Run(func() bool { return int(doneCount.Load()) == len(ops) && len(s.Alive()) == 0 }, stepBudget, 10*time.Second)
 	if end == sched.Hang {
-		res.Violate(prop+"/hang", "client requests did not finish: done=%d/%d parked=%v alive=%v", doneCount, len(ops), s.ParkedLabels(), s.Alive())
+		res.Violate(prop+"/hang", "client requests did not finish: done=%d/%d parked=%v alive=%v", doneCount.Load(), len(ops), s.ParkedLabels(), s.Alive())
 	} else if end == sched.StepBudget {
 		res.Verdict, res.Anomaly = "anomaly", "step budget exhausted in FED"
 		return
@@ -218,14 +223,14 @@ func scenFED(s *sched.Sim, cfg Config, res *Result) {
 		for i, fo := range ops {
 			again = append(again, &fedOp{op: fo.op, client: fmt.Sprintf("x%d", i), want: env.reference(fo.op)})
 		}
-		done2 := false
+		var done2 atomic.Bool
 		s.Go("cx", func() {
 			for _, fo := range again {
 				fo.resp = env.post(fo.client, []clientReq{{Query: fo.op.Text, Variables: fo.op.Vars, OperationName: fo.op.OpName}}, false)
 			}
-			done2 = true
+			done2.Store(true)
 		})
-		if s.Run(func() bool { return done2 && len(s.Alive()) == 0 }, 200000, 10*time.Second) == sched.Hang {
+		if s.Run(func() bool { return done2.Load() && len(s.Alive()) == 0 }, 200000, 10*time.Second) == sched.Hang {
 			res.Violate(prop+"/hang", "requests on the 2x world did not finish: parked=%v", s.ParkedLabels())
 		}
 		ops = append(ops, again...)
